@@ -90,6 +90,8 @@ def gen_expr(c):
         body.append("D %s %s;" % (asg, expr(c["tree"])))
     elif asg == "*=":
         body.append("D *= e.c[0];")
+    elif asg == "/=i":
+        body.append("D /= 2;")       # an integer divisor
     else:
         body.append("D /= e.two;")
     if back:
@@ -164,6 +166,8 @@ def gen_addr(c):
         else:
             T, x = "tmatrix<%du, %du, double>" % (v["r"], v["c"]), "submatrix_view<%d, %d, %d, %d>()" % (v["i"], v["j"], v["r"], v["c"])
         host += "auto X = h.%s;" % x
+        # the same view on a const host
+        host += " { const auto& ch_ = h; const %s rc_ = ch_.%s; c17::elems(e.readc, rc_); }" % (T, x)
     elif k == "strided":
         T = TYPES[v["t"]]
         host = "auto X = map_strided<%s>(%s, static_cast<unsigned short>(e.vst));" % (T, p)
@@ -181,6 +185,7 @@ def gen_addr(c):
                 host += ("auto X = map_derivative<%s, %s>(h, static_cast<unsigned short>(e.vi), static_cast<unsigned short>(e.vj));" % (F, V))
             else:
                 host += "auto X = map_derivative<%d, %d, %s, %s>(h);" % (v["i"], v["j"], F, V)
+            host += " " + array_accessor(v["f"], v["v"])
         else:
             host = ("auto X = map_derivative_strided<%s, %s, 5, 4>(%s, static_cast<std::size_t>(e.vst), "
                     "static_cast<unsigned short>(e.vi), static_cast<unsigned short>(e.vj));" % (F, V, p))
@@ -199,6 +204,21 @@ def gen_addr(c):
     if back:
         body.append(back)
     return "\n  ".join(body)
+
+
+SHAPES = {"scalar": (), "tvector2": (2,), "tvector3": (3,), "stensor1": (3,), "stensor2": (4,), "tensor1": (3,), "tensor2": (5,),
+          "tmatrix22": (2, 2), "tmatrix23": (2, 3)}
+
+
+def array_accessor(f, v):
+    """C++ comparing X(i, j, ...) with X(std::array{i, j, ...}) for every index of a derivative view"""
+    dims = SHAPES[f] + SHAPES[v]
+    if not dims:
+        return ""
+    idx = ["i%d_" % k for k in range(len(dims))]
+    loops = "".join("for (ST_ %s = 0; %s != %d; ++%s) " % (i, i, n, i) for i, n in zip(idx, dims))
+    return ("{ using ST_ = typename std::decay_t<decltype(X)>::size_type; bool same_ = true; %s same_ = same_ && "
+            "(X(%s) == X(std::array<ST_, %d>{%s})); e.arrsame = same_ ? 1 : 0; }" % (loops, ", ".join(idx), len(dims), ", ".join(idx)))
 
 
 def shape_key(c):
@@ -308,7 +328,7 @@ def run(ctx):
                    "results are compared as exact integers, no tolerance",
                    "the meaning of a statement whose destination view overlaps an operand view is the naive loop in ascending "
                    "row-major order (reads see earlier writes); for exact aliasing this coincides with eager evaluation",
-                   "one scalar type (double); quantities (qt) and integer / complex value types are not exercised",
+                   "one value type (double); the scalar of /= is a double or the integer literal 2; quantities (qt) and integer / complex value types are not exercised",
                    "out-of-range writes are observed only within the 64-cell guard zones around the buffer"]
     rule = ("GEN enumerates (a) every view constructor of the catalogue with all its compile-time parameters on small hosts "
             "(strided vector / matrix policies, slices, map with offset, row / column / sub-matrix views, strided and coalesced "
